@@ -181,10 +181,15 @@ def run(ctx):
     exe = drv.build(ctx, "d", "hooks")
     cs = cases(ctx)
     res = drv.run_grouped(exe, cs, par=max(1, vf.NCPU // 4), chunk=10)
-    ntr, nbusy, nseq, nsnap = 0, 0, 0, 0
+    ntr, nbusy, nseq, nsnap, nretry = 0, 0, 0, 0, 0
     bdrv = ctx.ocaml_model("busy")
     for c, r in zip(cs, res):
         bad = None
+        if r.get("crash") is not None and "exceeded" in (r.get("stderr") or "") and "Storage for" in (r.get("stderr") or ""):
+            # the tunable size estimate was too small for this input: the library's documented stop, not a protocol failure;
+            # the run is repeated with ample estimates
+            c = dict(c, ienv=c["ienv"][:5] + [-400, -400, -400]); nretry += 1
+            r = drv.run_batch(exe, [c])[0]
         if r.get("timeout") or r.get("crash") is not None or r.get("missing"):
             bad = "run failed: %s" % {k: r.get(k) for k in ("timeout", "crash", "stderr")}
             nontriv = True
@@ -211,6 +216,7 @@ def run(ctx):
     ctx.cov["traces_validated_against_impl"] = ntr
     ctx.cov["correspondence"]["threaded_traces"] = ntr
     ctx.cov["correspondence"]["busy_chain_reads_seen"] = nbusy
+    ctx.cov["correspondence"]["runs_repeated_with_larger_size_estimates"] = nretry
     ctx.cov["correspondence"]["busy_snapshots_equal_to_model"] = nsnap
     ctx.cov["correspondence"]["parallel_vs_sequential_compared"] = nseq
     ctx.sample({"trace_case": {k: cs[0][k] for k in ("kind", "n", "nprocs", "colperm", "ienv", "thresh", "perturb")}})
